@@ -30,8 +30,8 @@ pub struct PropDef {
 fn c01(tier: &str) -> PropDef {
     let quick = tier == "quick";
     let sweep_len = if quick { 3 } else { 4 };
-    let seeded = if quick { 3000 } else { 150_000 };
-    let large = if quick { 6 } else { 200 };
+    let seeded = if quick { 30_000 } else { 600_000 };
+    let large = if quick { 16 } else { 600 };
     let families = vec![
         Family {
             name: "sweep",
@@ -224,7 +224,7 @@ const CRASH_ASSUME: [&str; 3] = [
 
 fn c02(tier: &str) -> PropDef {
     let quick = tier == "quick";
-    let counts = if quick { [819, 1200, 700, 300, 2, 0] } else { [7380, 50_000, 25_000, 10_000, 40, 0] };
+    let counts = if quick { [819, 6000, 3000, 1500, 2, 0] } else { [7380, 150_000, 80_000, 30_000, 60, 0] };
     PropDef {
         level: "fault_enumeration",
         rule: "case = one history (writer: sweep over the 9-letter alphabet and seeded 2-14 step traces incl. reopen and make_read_only; replica: honest proof applications with reopen steps) executed fault-free on a journalling SimDisk; then EVERY prefix of its mutating-storage-op journal is materialised, reopened with open(true) and fully scanned (length, byte_length, writeable, has/get of every index) and must equal the model snapshot before or after the interrupted call (strictly 'before' when no op of the call was persisted). A seeded third of the recovered cores then runs a 3-5 step suffix (with a reopen) under the C01 oracle; the thorough tier crashes a second time inside that suffix. distinct = distinct (history) hash; non-trivial = history with at least one mutating step (every one of them gets all its crash points).",
@@ -235,7 +235,7 @@ fn c02(tier: &str) -> PropDef {
 
 fn c07(tier: &str) -> PropDef {
     let quick = tier == "quick";
-    let counts = if quick { [300, 300, 200, 100, 0, 0] } else { [7380, 12_000, 6_000, 3_000, 0, 0] };
+    let counts = if quick { [819, 2500, 1500, 800, 0, 0] } else { [7380, 40_000, 20_000, 10_000, 0, 0] };
     PropDef {
         level: "fault_enumeration",
         rule: "same histories and oracle as C02, but at every crash point whose next journal op is a write of n bytes only a byte prefix j of it reaches the store: all j in 1..n-1 for n <= 64, otherwise j in {1,3,4,7,8,9,10,12,16,40..44,72..76,108..110, n-1,n-2,n-4,n-8,n-9,n-32,n-33,n-64,n-65, multiples of 512} plus 8 seeded cuts. Tearing lands over existing bytes (header slots are overwritten in place). distinct/non-trivial as for C02.",
@@ -246,7 +246,7 @@ fn c07(tier: &str) -> PropDef {
 
 fn c10(tier: &str) -> PropDef {
     let quick = tier == "quick";
-    let counts = if quick { [819, 250, 150, 60, 0, 0] } else { [7380, 8_000, 4_000, 2_000, 0, 0] };
+    let counts = if quick { [819, 2000, 1200, 500, 0, 0] } else { [7380, 40_000, 20_000, 8_000, 0, 0] };
     PropDef {
         level: "fault_enumeration",
         rule: "case = one history (as C02) with N storage operations in total on the subject's SimDisk (reads and length queries included); it is re-executed N times, each time with one injected I/O error (EIO) at storage op index k = 0..N-1. The public call that issued op k must return Err (not Ok, no panic, no hang); then the instance is dropped, the same storage reopened fault-free and fully scanned: the state must equal the model before or after that call; half of the recoveries then run a 3-5 step suffix under the C01 oracle. distinct/non-trivial as for C02.",
@@ -260,8 +260,8 @@ fn c10(tier: &str) -> PropDef {
 
 fn c03(tier: &str) -> PropDef {
     let quick = tier == "quick";
-    let strict = if quick { 4000 } else { 120_000 };
-    let big = if quick { 40 } else { 2_000 };
+    let strict = if quick { 30_000 } else { 600_000 };
+    let big = if quick { 300 } else { 8_000 };
     let families = vec![
         Family {
             name: "strict",
@@ -310,7 +310,7 @@ fn c03(tier: &str) -> PropDef {
     let mut families = families;
     families.push(Family {
         name: "faulty-network",
-        count: if quick { 1200 } else { 40_000 },
+        count: if quick { 10_000 } else { 250_000 },
         make: Box::new(|seed, idx| {
             let mut r = Rng::stream(seed, "C03", idx, "network");
             let mut g = G::new(idx);
@@ -366,7 +366,7 @@ fn c04(tier: &str) -> PropDef {
     let families = vec![
         Family {
             name: "seeded-alterations",
-            count: if quick { 3000 } else { 60_000 },
+            count: if quick { 25_000 } else { 500_000 },
             make: Box::new(|seed, idx| {
                 let mut r = Rng::stream(seed, "C04", idx, "tamper");
                 let mut g = G::new(idx);
@@ -381,7 +381,7 @@ fn c04(tier: &str) -> PropDef {
         },
         Family {
             name: "full-alteration-set",
-            count: if quick { 150 } else { 12_000 },
+            count: if quick { 12_000 } else { 300_000 },
             make: Box::new(|seed, idx| {
                 let mut r = Rng::stream(seed, "C04", idx, "tamper-all");
                 let mut g = G::new(idx);
@@ -406,7 +406,7 @@ fn c09(tier: &str) -> PropDef {
     let quick = tier == "quick";
     let families = vec![Family {
         name: "byzantine",
-        count: if quick { 6000 } else { 400_000 },
+        count: if quick { 60_000 } else { 2_000_000 },
         make: Box::new(|seed, idx| {
             let mut r = Rng::stream(seed, "C09", idx, "byz");
             let mut g = G::new(idx);
@@ -431,7 +431,7 @@ fn c08(tier: &str) -> PropDef {
     let families = vec![
         Family {
             name: "large-writer",
-            count: if quick { 10 } else { 300 },
+            count: if quick { 20 } else { 600 },
             make: Box::new(|seed, idx| {
                 let mut r = Rng::stream(seed, "C08", idx, "large");
                 let mut g = G::new(idx);
@@ -443,7 +443,7 @@ fn c08(tier: &str) -> PropDef {
         },
         Family {
             name: "far-apart-replica",
-            count: if quick { 6 } else { 150 },
+            count: if quick { 10 } else { 300 },
             make: Box::new(|seed, idx| {
                 let mut r = Rng::stream(seed, "C08", idx, "far");
                 let count = *r.pick(&[33000u32, 40000, 66000, 70000]);
@@ -468,7 +468,7 @@ fn c08(tier: &str) -> PropDef {
         },
         Family {
             name: "small-writer",
-            count: if quick { 2500 } else { 80_000 },
+            count: if quick { 15_000 } else { 400_000 },
             make: Box::new(|seed, idx| {
                 let mut r = Rng::stream(seed, "C08", idx, "small");
                 let mut g = G::new(idx);
@@ -480,7 +480,7 @@ fn c08(tier: &str) -> PropDef {
         },
         Family {
             name: "small-replica",
-            count: if quick { 2000 } else { 60_000 },
+            count: if quick { 12_000 } else { 300_000 },
             make: Box::new(|seed, idx| {
                 let mut r = Rng::stream(seed, "C08", idx, "replica");
                 let mut g = G::new(idx);
@@ -493,7 +493,7 @@ fn c08(tier: &str) -> PropDef {
         },
         Family {
             name: "crash-recovery",
-            count: if quick { 500 } else { 15_000 },
+            count: if quick { 3000 } else { 60_000 },
             make: Box::new(|seed, idx| {
                 let mut r = Rng::stream(seed, "C08", idx, "crash");
                 let mut g = G::new(idx);
@@ -545,7 +545,7 @@ fn c12(tier: &str) -> PropDef {
     let families = vec![
         Family {
             name: "writer-histories",
-            count: if quick { 3000 } else { 100_000 },
+            count: if quick { 20_000 } else { 400_000 },
             make: Box::new(move |seed, idx| {
                 let (_r, steps) = h1(seed, idx);
                 world_case(Cfg::basic(seed ^ idx), steps, Fault::None)
@@ -553,7 +553,7 @@ fn c12(tier: &str) -> PropDef {
         },
         Family {
             name: "replica-histories",
-            count: if quick { 1000 } else { 30_000 },
+            count: if quick { 6_000 } else { 120_000 },
             make: Box::new(|seed, idx| {
                 let mut r = Rng::stream(seed, "C12", idx, "replica");
                 let mut g = G::new(idx);
@@ -573,7 +573,7 @@ fn c12(tier: &str) -> PropDef {
         },
         Family {
             name: "crash-in-make-read-only",
-            count: if quick { 400 } else { 12_000 },
+            count: if quick { 2500 } else { 50_000 },
             make: Box::new(move |seed, idx| {
                 let (mut r, steps) = h2(seed, idx);
                 world_case(Cfg::basic(seed ^ idx), steps, Fault::CrashAll { node: 0, tear: false, suffix_seed: r.next(), double: false, sample: 0 })
@@ -581,7 +581,7 @@ fn c12(tier: &str) -> PropDef {
         },
         Family {
             name: "torn-write-in-make-read-only",
-            count: if quick { 120 } else { 4_000 },
+            count: if quick { 700 } else { 15_000 },
             make: Box::new(move |seed, idx| {
                 let (mut r, steps) = h3(seed, idx);
                 world_case(Cfg::basic(seed ^ idx), steps, Fault::CrashAll { node: 0, tear: true, suffix_seed: r.next(), double: false, sample: 0 })
@@ -601,7 +601,7 @@ fn c13(tier: &str) -> PropDef {
     let families = vec![
         Family {
             name: "writer",
-            count: if quick { 2500 } else { 80_000 },
+            count: if quick { 20_000 } else { 400_000 },
             make: Box::new(|seed, idx| {
                 let mut r = Rng::stream(seed, "C13", idx, "writer");
                 let mut g = G::new(idx);
@@ -616,7 +616,7 @@ fn c13(tier: &str) -> PropDef {
         },
         Family {
             name: "replication-with-refusals",
-            count: if quick { 2500 } else { 80_000 },
+            count: if quick { 20_000 } else { 400_000 },
             make: Box::new(|seed, idx| {
                 let mut r = Rng::stream(seed, "C13", idx, "repl");
                 let mut g = G::new(idx);
@@ -632,7 +632,7 @@ fn c13(tier: &str) -> PropDef {
         },
         Family {
             name: "failing-calls",
-            count: if quick { 150 } else { 5_000 },
+            count: if quick { 1000 } else { 20_000 },
             make: Box::new(|seed, idx| {
                 let mut r = Rng::stream(seed, "C13", idx, "fail");
                 let mut g = G::new(idx);
@@ -664,7 +664,7 @@ fn c05(tier: &str) -> PropDef {
     let families = vec![
         Family {
             name: "length-sweep",
-            count: if quick { 131 * 2 } else { 131 * 40 },
+            count: if quick { 131 * 10 } else { 131 * 150 },
             make: Box::new(|seed, idx| {
                 // every root-set shape up to 2^7+2 leaves, built by a seeded mix of single / batch / reopen
                 let target = idx % 131;
@@ -716,7 +716,7 @@ fn c05(tier: &str) -> PropDef {
         },
         Family {
             name: "long",
-            count: if quick { 6 } else { 300 },
+            count: if quick { 30 } else { 1_000 },
             make: Box::new(|seed, idx| {
                 let mut r = Rng::stream(seed, "C05", idx, "long");
                 let mut g = G::new(idx);
@@ -745,7 +745,7 @@ fn c05(tier: &str) -> PropDef {
         },
         Family {
             name: "crash-recovery-then-flush",
-            count: if quick { 150 } else { 5_000 },
+            count: if quick { 1000 } else { 25_000 },
             make: Box::new(|seed, idx| {
                 // recovered cores run a suffix; the suffix world judges tree/header/signatures too
                 let mut r = Rng::stream(seed, "C05", idx, "crash");
@@ -777,7 +777,7 @@ fn c06(tier: &str) -> PropDef {
         },
         Family {
             name: "reader-writer-histories",
-            count: if quick { 1500 } else { 50_000 },
+            count: if quick { 12_000 } else { 300_000 },
             make: Box::new(|seed, idx| {
                 let mut r = Rng::stream(seed, "C06", idx, "reader");
                 let mut g = G::new(idx);
@@ -792,7 +792,7 @@ fn c06(tier: &str) -> PropDef {
         },
         Family {
             name: "reader-replica-histories",
-            count: if quick { 1000 } else { 30_000 },
+            count: if quick { 8_000 } else { 200_000 },
             make: Box::new(|seed, idx| {
                 let mut r = Rng::stream(seed, "C06", idx, "reader-replica");
                 let mut g = G::new(idx);
@@ -807,7 +807,7 @@ fn c06(tier: &str) -> PropDef {
         },
         Family {
             name: "js-encoded-stores",
-            count: if quick { 2500 } else { 80_000 },
+            count: if quick { 25_000 } else { 600_000 },
             make: Box::new(|seed, idx| {
                 let mut r = Rng::stream(seed, "C06", idx, "jswrite");
                 let spec = crate::jsfmt::gen_js_store(&mut r, idx);
@@ -831,7 +831,7 @@ fn c15(tier: &str) -> PropDef {
     let families = vec![
         Family {
             name: "dfs-small",
-            count: if quick { 40 } else { 1500 },
+            count: if quick { 300 } else { 6000 },
             make: Box::new(move |seed, idx| {
                 let mut r = Rng::stream(seed, "C15", idx, "dfs");
                 let mut spec = crate::c15::gen_spec(&mut r, idx, true);
@@ -841,7 +841,7 @@ fn c15(tier: &str) -> PropDef {
         },
         Family {
             name: "random",
-            count: if quick { 12_000 } else { 1_500_000 },
+            count: if quick { 150_000 } else { 6_000_000 },
             make: Box::new(move |seed, idx| {
                 let mut r = Rng::stream(seed, "C15", idx / 8, "random");
                 // 8 schedules per workload
@@ -852,7 +852,7 @@ fn c15(tier: &str) -> PropDef {
         },
         Family {
             name: "pct",
-            count: if quick { 6_000 } else { 800_000 },
+            count: if quick { 80_000 } else { 3_000_000 },
             make: Box::new(move |seed, idx| {
                 let mut r = Rng::stream(seed, "C15", idx / 8, "pct");
                 let mut spec = crate::c15::gen_spec(&mut r, idx / 8, false);
@@ -1039,26 +1039,50 @@ pub fn check(opts: &RunOpts, t0: Instant) -> i32 {
     }
 }
 
+pub const ALL_PROPS: [&str; 14] =
+    ["C01", "C02", "C03", "C04", "C05", "C06", "C07", "C08", "C09", "C10", "C12", "C13", "C14", "C15"];
+
+/// prints the merged event-log hash of a quick run (no evidence, no replay files)
+pub fn print_hash(prop: &str, seed: u64, workers: usize) -> i32 {
+    let Some(def) = prop_def(prop, "quick") else { return 2 };
+    let opts = RunOpts { prop: prop.into(), tier: "quick".into(), seed, workers, max_reports: 0, wall_limit_s: 0 };
+    let s = harness::run_families(&opts, def.families);
+    println!("{prop} seed={seed} workers={workers} runs={} hash={:016x} violations={}", s.evaluations, s.log_hash, s.violations.len());
+    0
+}
+
 pub fn selfcheck(what: &str, workers: usize) -> i32 {
     match what {
         "determinism" => {
-            // same seeds, twice, at two worker counts: event-log hashes must agree
+            // every property, several seeds, twice each in separate processes at worker counts 1
+            // and N: the merged event-log hashes must agree
+            let exe = std::env::current_exe().unwrap();
             let mut bad = 0;
-            for prop in ["C01"] {
-                let mut hashes = vec![];
-                for wk in [1usize, workers, workers] {
-                    let Some(def) = prop_def(prop, "quick") else { continue };
-                    let opts = RunOpts { prop: prop.into(), tier: "quick".into(), seed: 1, workers: wk, max_reports: 0, wall_limit_s: 0 };
-                    let s = harness::run_families(&opts, def.families);
-                    hashes.push((wk, s.log_hash, s.evaluations));
-                }
-                println!("determinism {prop}: {hashes:x?}");
-                if hashes.iter().any(|h| h.1 != hashes[0].1) {
-                    bad += 1;
+            let seeds: Vec<u64> = std::env::var("HCSIM_DET_SEEDS")
+                .ok()
+                .map(|s| s.split(',').filter_map(|x| x.parse().ok()).collect())
+                .unwrap_or_else(|| vec![1, 2, 3]);
+            for prop in ALL_PROPS {
+                for seed in &seeds {
+                    let mut hashes = vec![];
+                    for wk in [1usize, workers, workers] {
+                        let out = std::process::Command::new(&exe)
+                            .args(["hash", prop, &seed.to_string(), &wk.to_string()])
+                            .output()
+                            .expect("spawn");
+                        let line = String::from_utf8_lossy(&out.stdout).lines().last().unwrap_or("").to_string();
+                        let h = line.split("hash=").nth(1).map(|s| s.split(' ').next().unwrap_or("").to_string()).unwrap_or_default();
+                        hashes.push(h);
+                    }
+                    let ok = !hashes[0].is_empty() && hashes.iter().all(|h| *h == hashes[0]);
+                    println!("determinism {prop} seed {seed}: {hashes:?} {}", if ok { "ok" } else { "MISMATCH" });
+                    if !ok {
+                        bad += 1;
+                    }
                 }
             }
             if bad > 0 {
-                println!("DETERMINISM FAILURE");
+                println!("DETERMINISM FAILURE in {bad} (property, seed) pairs");
                 2
             } else {
                 println!("determinism OK");
